@@ -76,7 +76,9 @@ def jitter(img, scale, pixelscale=1, oversample=1):
     y = np.fft.fftfreq(img.shape[0])
     xx, yy = np.meshgrid(x, y)
     rho = np.sqrt(xx ** 2 + yy ** 2)
-    kernel = np.exp(-2 * (np.pi * (scale / pixelscale) * oversample * rho) ** 2)
+    # (as Python floats: two single or half precision NumPy scalars would be
+    # divided in that precision)
+    kernel = np.exp(-2 * (np.pi * (float(scale) / float(pixelscale)) * oversample * rho) ** 2)
 
     out = np.abs(np.fft.ifft2(np.fft.fft2(img)*kernel))
     # rescale to preserve input weight (summed in at least double precision:
@@ -175,7 +177,7 @@ def smear(img, distance, angle=None, pixelscale=1, oversample=1):
 
     yy_rot = np.sin(angle) * yy + np.cos(angle) * xx
 
-    kernel = np.sinc(yy_rot * (distance / pixelscale) * oversample)
+    kernel = np.sinc(yy_rot * (float(distance) / float(pixelscale)) * oversample)
 
     out = np.abs(np.fft.ifft2(np.fft.fft2(img)*kernel))
     # rescale to preserve input weight (summed in at least double precision:
